@@ -169,3 +169,141 @@ Proof.
   - intros k'. cbn. rewrite !keys_aget_iff, G. destruct (Nat.eqb_spec k' k); [subst; rewrite He|]; split; eauto.
   - intros k' e'. cbn. rewrite G. destruct (Nat.eqb_spec k' k); [subst|]; intros H; inv H; eauto.
 Qed.
+
+(* ------------------------------------------------------------------ *)
+(* C06: an async_lock on a held key that is cancelled while pending leaves exactly the state it found,
+   except that the key was moved to the most-recently-used position by the call's own look-up *)
+
+Definition seq_async_cancel (c : cfg) (s : state) (a : aid) (k : key) : result :=
+  then_ (step c s (LStart a (CLock ShAsync k None))) (fun s1 =>
+  then_ (step c s1 (LResume a [])) (fun s2 =>
+  then_ (step c s2 (LResume a [])) (fun s3 =>
+  then_ (step c s3 (LCancel a)) (fun s4 => step c s4 (LResume a []))))).
+
+Lemma remove_nat_snoc_fresh a q : ~ In a q -> remove_nat a (q ++ [a]) = q.
+Proof.
+  intros H. rewrite remove_nat_app. cbn. rewrite Nat.eqb_refl, app_nil_r. apply remove_nat_notin; auto.
+Qed.
+
+Theorem async_cancel_roundtrip c s a k e :
+  Inv s -> aget a (s_ops s) = None -> aget k (s_ents s) = Some e -> e_owner e <> None ->
+  seq_async_cancel c s a k =
+  ROk (mkS (aset k e (promote_if_lru c k (s_ents s))) (s_guards s) (s_ops s) (s_clock s) (s_gid s)) OCancelled.
+Proof.
+  intros HI Ha He Ho. unfold seq_async_cancel. rewrite (start_lock c s a ShAsync k Ha). cbn [then_].
+  set (s1 := set_pc s a (PEnter ShAsync k None)).
+  assert (HI1 : Inv s1) by (apply start_inv; auto; intros; cbn; auto).
+  assert (Ha1 : aget a (s_ops s1) = Some (PEnter ShAsync k None)) by (cbn; apply aget_aset_eq).
+  rewrite (resume_cs_lookup c s1 a ShAsync k HI1 Ha1).
+  unfold do_lookup. cbn [s_ents s1 set_pc with_ops sh_is_try]. rewrite He. cbn [then_].
+  set (e2 := set_repl e (S (e_repl e))).
+  set (ents2 := aset k e2 (promote_if_lru c k (s_ents s))).
+  set (s2 := set_pc (with_ents s1 ents2) a (PKeyWait ShAsync k)).
+  assert (E2 : do_lookup c s1 a ShAsync k = ROk s2 ONothing).
+  { unfold do_lookup. cbn [s_ents s1 set_pc with_ops sh_is_try]. rewrite He. reflexivity. }
+  pose proof (do_lookup_inv c s1 a ShAsync k None s2 ONothing HI1 Ha1 E2) as HI2.
+  assert (He2 : aget k (s_ents s2) = Some e2) by (cbn; apply aget_aset_eq).
+  assert (Ha2 : aget a (s_ops s2) = Some (PKeyWait ShAsync k)) by (cbn; apply aget_aset_eq).
+  (* first poll: the mutex is held, enqueue *)
+  set (e3 := set_queue e2 (e_queue e2 ++ [a])).
+  set (s3 := set_pc (with_ents s2 (aset k e3 (s_ents s2))) a (PQueued ShAsync k)).
+  assert (E3 : step c s2 (LResume a []) = ROk s3 ONothing).
+  { cbn [step]. unfold do_resume. rewrite Ha2. unfold do_key_wait. rewrite He2. cbn [e_owner e2 set_repl].
+    destruct (e_owner e); [reflexivity|congruence]. }
+  rewrite E3. cbn [then_].
+  pose proof (step_inv c s2 _ _ _ HI2 E3) as HI3.
+  assert (Ha3 : aget a (s_ops s3) = Some (PQueued ShAsync k)) by (cbn; apply aget_aset_eq).
+  assert (E4 : step c s3 (LCancel a) = ROk (set_pc s3 a (PCancel k)) ONothing).
+  { cbn [step]. unfold do_cancel. rewrite Ha3. reflexivity. }
+  rewrite E4. cbn [then_].
+  set (s4 := set_pc s3 a (PCancel k)).
+  pose proof (step_inv c s3 _ _ _ HI3 E4) as HI4.
+  assert (Ha4 : aget a (s_ops s4) = Some (PCancel k)) by (cbn; apply aget_aset_eq).
+  (* the waiter was not queued before: it did not exist *)
+  assert (Hnq : ~ In a (e_queue e)).
+  { intros Hin. assert (W : waits_on s a k) by (apply (ki_w _ _ (inv_k _ HI k)); eauto).
+    destruct W as (p & Hp & _). congruence. }
+  assert (Hnw : e_owner e <> Some (OwnW a)).
+  { intros Hw. assert (W : waits_on s a k) by (apply (ki_w _ _ (inv_k _ HI k)); eauto).
+    destruct W as (p & Hp & _). congruence. }
+  assert (R1 : 1 <= e_repl e) by (apply (owner_handles s k e HI He Ho)).
+  (* the cancel critical section *)
+  assert (Hc : cancel_ents c (s_ents s4) a k =
+               inl (Some (aset k e (promote_if_lru c k (s_ents s))))).
+  { unfold cancel_ents. cbn [s_ents s4 s3 s2 set_pc with_ents with_ops]. unfold ents2. rewrite !aset_aset, aget_aset_eq.
+    assert (M : mx_cancel e3 a = set_queue e3 (e_queue e)).
+    { unfold mx_cancel. cbn [e_owner e3 e2 set_queue set_repl e_queue].
+      destruct (e_owner e) as [[g|a']|] eqn:Eo; try congruence.
+      - rewrite remove_nat_snoc_fresh; auto.
+      - destruct (Nat.eqb_spec a a'); [subst; congruence|]. rewrite remove_nat_snoc_fresh; auto. }
+    rewrite M. cbn [e_repl set_repl set_queue e3 e2 e_owner e_val].
+    replace (S (e_repl e) - 1) with (e_repl e) by lia.
+    destruct (Nat.eqb_spec (e_repl e) 0); [lia|].
+    rewrite aset_aset. do 3 f_equal. destruct e; reflexivity. }
+  cbn [step]. unfold do_resume. rewrite Ha4, Hc.
+  match goal with |- cs ?st (ROk ?st' ?ob) = _ => assert (HI5 : Inv st') end.
+  { eapply (do_pcancel_inv c s4 a k); eauto. }
+  rewrite cs_intro; auto. f_equal.
+  unfold fin, with_ents, with_ops, set_pc. cbn [s_ents s_guards s_ops s_clock s_gid s4 s3 s2 s1 set_pc with_ents with_ops].
+  rewrite !aset_aset, adel_aset_absent; auto.
+Qed.
+
+(* ------------------------------------------------------------------ *)
+(* dropping a guard, run to completion *)
+
+Definition seq_drop (c : cfg) (s : state) (a : aid) (g : gid) : result :=
+  then_ (step c s (LStart a (CDrop g))) (fun s1 => step c s1 (LResume a [])).
+
+(* the state after dropping the only handle on key k (no waiter, no other call in flight on k) *)
+Definition dropped_state (c : cfg) (s : state) (g : gid) (k : key) (e : entry) : state :=
+  match e_val e with
+  | None => mkS (adel k (s_ents s)) (adel g (s_guards s)) (s_ops s) (s_clock s) (s_gid s)
+  | Some (v, st) =>
+      mkS (aset k (mkE (Some (v, if c_lru c then s_clock s else st)) None [] 0) (s_ents s))
+          (adel g (s_guards s)) (s_ops s) (s_clock s) (s_gid s)
+  end.
+
+Theorem seq_drop_sole c s a g k e :
+  Inv s -> aget a (s_ops s) = None -> aget g (s_guards s) = Some k -> guard_busy s g = false ->
+  aget k (s_ents s) = Some e -> e_queue e = [] -> e_repl e = 1 ->
+  seq_drop c s a g = ROk (dropped_state c s g k e) OUnit.
+Proof.
+  intros HI Ha Hg Hb He Hq Hr. unfold seq_drop.
+  assert (E1 : step c s (LStart a (CDrop g)) = ROk (set_pc (begin_unlock c s g) a (PDrops [g] ADoneUnit)) ONothing).
+  { cbn. unfold do_start, amem, guard_live, amem. rewrite Ha, Hg, Hb. reflexivity. }
+  rewrite E1. cbn [then_].
+  set (s1 := set_pc (begin_unlock c s g) a (PDrops [g] ADoneUnit)).
+  pose proof (step_inv c s _ _ _ HI E1) as HI1.
+  assert (Ha1 : aget a (s_ops s1) = Some (PDrops [g] ADoneUnit)) by (cbn; apply aget_aset_eq).
+  assert (Ho : e_owner e = Some (OwnG g)).
+  { destruct (Inv_guard_present s g k HI Hg) as (e0 & He0 & Ho0). congruence. }
+  (* the state after on_unlock *)
+  assert (B : begin_unlock c s g =
+              match e_val e with
+              | Some (v, st) => if c_lru c then with_ents s (aset k (set_val e (Some (v, s_clock s))) (s_ents s)) else s
+              | None => s
+              end).
+  { unfold begin_unlock. rewrite Hg, He. destruct (c_lru c); destruct (e_val e) as [[v st]|]; reflexivity. }
+  cbn [step]. unfold do_resume. rewrite Ha1. unfold do_drops.
+  assert (U : unlock_cs c s1 g = inl (Some (with_ops (dropped_state c s g k e) (s_ops s1)))).
+  { unfold unlock_cs, s1. cbn [s_guards s_ents set_pc with_ops]. rewrite begin_unlock_guards, Hg, B.
+    unfold dropped_state, mx_release, promote_if_lru.
+    destruct (e_val e) as [[v st]|] eqn:Ev.
+    - destruct (c_lru c) eqn:El.
+      + cbn [s_ents with_ents]. rewrite aget_aset_eq. cbn [e_val set_val e_queue e_repl set_repl set_owner].
+        rewrite Hq, Hr. cbn. rewrite aset_aset. unfold with_guards, with_ents, with_ops. cbn.
+        unfold set_repl, set_owner, set_val; cbn; rewrite ?Hq; reflexivity.
+      + rewrite He. rewrite Ev, Hq, Hr. cbn. unfold with_guards, with_ents, with_ops. cbn.
+        unfold set_repl, set_owner, set_val; cbn; rewrite ?Hq, ?Ev; reflexivity.
+    - rewrite He, Ev, Hq. cbn [e_repl set_repl set_owner e_queue]. rewrite Hr. cbn [Nat.sub Nat.eqb].
+      unfold with_guards, with_ents, with_ops. cbn [s_ents s_guards s_ops s_clock s_gid].
+      assert (D : forall X, adel k (if c_lru c then apromote k (aset k X (s_ents s)) else aset k X (s_ents s)) = adel k (s_ents s)).
+      { intros X. destruct (c_lru c); [rewrite adel_apromote_same|]; apply adel_aset_same. }
+      rewrite D. reflexivity. }
+  rewrite U.
+  match goal with |- cs ?st (ROk ?st' ?ob) = _ => assert (HI5 : Inv st') end.
+  { eapply (do_drops_inv c s1 a [g] ADoneUnit); eauto. unfold do_drops. rewrite U. reflexivity. }
+  rewrite cs_intro; auto. f_equal.
+  unfold fin, with_ops, dropped_state. destruct (e_val e) as [[v st]|]; cbn [s_ents s_guards s_ops s_clock s_gid s1 set_pc with_ops];
+    rewrite begin_unlock_ops, adel_aset_absent; auto.
+Qed.
